@@ -50,6 +50,10 @@ CHECKS = {
    text="Two real Btp ends joined by FIFO queues: BFS over all interleavings of submit/poll/deliver/fetch/ack-timer steps (incl. states next to the 8-bit sequence wrap) with delivery, window, ack-deadline and bounded-liveness oracles in every state; plus, at every state of a conforming conversation, injection of a full boundary catalog of hostile data and handshake segments against a reference of what must be refused.",
    note="GATT is ordered and lossless; ack deadline checked when the application has fetched every complete message; a hostile handshake on an established session only has to be survived.",
    tech="explicit-state BFS over interleavings of the real implementation + exhaustive fault (segment) injection per visited state"),
+ "C20": dict(cat="model_checking",
+   text="One real device and up to 19 real initiator nodes over the adversarial network and virtual clock. Exhaustive within the bounds: every sequence of up to k attempts over 13 attempt kinds (CASE/PASE complete, initiator vanishing after its n-th handshake message, n-th message garbled, wrong passcode), sequential or concurrent; the device's responder future cancelled and restarted after every number of polls up to a bound during each attempt kind; 15-18 completed or abandoned handshakes against the 16-slot session table. After 200 s of quiet virtual time the device's tables must hold no reserved session slot and no occupied exchange slot, no more secure sessions than handshakes its side completed, no session with a live exchange may have been evicted, and a fresh CASE handshake and (window open) a fresh PASE handshake must succeed (retrying on busy).",
+   note="An idle unsecured session without exchanges counts as free (evictable on demand); the mDNS resolve/browse rendezvous slots are not driven; initiators that are told busy retry up to three times.",
+   tech="exhaustive enumeration of bounded attempt sequences and cancellation points on the real multi-node system, with a state invariant at the horizon and a liveness probe"),
 }
 
 NOT_BUILT = "check not built yet at this commit (planned, see DESIGN.md)"
